@@ -317,7 +317,7 @@ def c_fa(ctx, case):
     note(ctx, case, 2, ("jfa" if case["jfa"] else "isv", "unsorted-labels" if list(y) != sorted(y) else None))
     for name in ("U", "D") + (("V",) if case["jfa"] else ()):
         ga, gd = np.asarray(getattr(a, name), float), np.asarray(getattr(d, name), float)
-        ctx.close(gd, ga, "%s (Dask vs in-memory)" % name, rtol=1e-7, atol=1e-9 * (np.abs(ga).max() + 1e-300))
+        ctx.close(gd, ga, "%s (Dask vs in-memory)" % name, rtol=1e-7, atol=1e-9 * (np.abs(ga).max() + 1e-300) + 1e-12 * float(np.sqrt(np.mean(np.asarray(case["ubm"]["variances"], float)))))
     ctx.stat_max("tasks per fit", ex.tasks_run)
 
 
